@@ -50,6 +50,34 @@ pub fn drive(tr: &mut Tracer, rng: &mut StdRng, thorough: bool) {
             _ => { tr.emit(json!({"op": "with_precision_round", "a": a, "p": p, "m": m})); }
         }
     }
+    // coefficients at the machine-word boundaries of the digit counter: 10^19 .. 2^64, 10^38 .. 2^128, around 2^32
+    for (lo, hi) in [(10u128.pow(19), u64::MAX as u128), (10u128.pow(38), u128::MAX), (10u128.pow(9), u32::MAX as u128), (10u128.pow(18), 10u128.pow(19) - 1)] {
+        for k in 0..(if thorough { 120 } else { 30 }) {
+            let v: u128 = match k % 4 { 0 => lo, 1 => hi, 2 => lo + rng.gen_range(0..1000), _ => lo + rng.gen::<u128>() % (hi - lo) };
+            let digits = v.to_string();
+            let a = dec(rng.gen_bool(0.5), &digits, rng.gen_range(-10..=25));
+            for p in [1usize, 5, digits.len() - 2, digits.len() - 1, digits.len(), digits.len() + 1, digits.len() + 4] {
+                let m = MODES[rng.gen_range(0..7)];
+                tr.emit(json!({"op": "with_precision_round", "a": a, "p": p, "m": m}));
+                tr.emit(json!({"op": "with_prec", "a": a, "p": p}));
+                tr.emit(json!({"op": "ctx_round", "form": rforms[k % 4], "a": a, "p": p, "m": m}));
+                tr.emit(json!({"op": "ctx_add", "form": aforms[k % 5], "a": a, "b": dec(false, "0", 0), "p": p, "m": m}));
+            }
+        }
+    }
+    // a tiny addend far below the p-th digit still decides directed roundings
+    for k in 0..(if thorough { 2000 } else { 400 }) {
+        let la = rng.gen_range(1..=12usize);
+        let p = la + rng.gen_range(0..=6);
+        let far = (p - la) as i64 + rng.gen_range(2..=40);
+        let sa = rng.gen_range(-8..=8i64);
+        let a = dec(rng.gen_bool(0.5), &shaped_digits(rng, la), sa);
+        let lb = pick_len(rng, 6);
+        let b = dec(rng.gen_bool(0.5), &shaped_digits(rng, lb), sa + far + lb as i64);
+        let m = ["Up", "Down", "Ceiling", "Floor", "HalfUp", "HalfEven", "HalfDown"][k % 7];
+        tr.emit(json!({"op": "ctx_add", "form": aforms[k % 5], "a": a, "b": b, "p": p, "m": m}));
+        tr.emit(json!({"op": "ctx_add", "form": aforms[(k + 1) % 5], "a": b, "b": a, "p": p, "m": m}));
+    }
     // precision-to-scale conversion near its overflow guards: the only acceptable outcomes are the
     // correctly rounded value or the documented "precision overflow" panic
     let big = |v: u128| u128_to_json(v);
